@@ -609,6 +609,16 @@ def _judge(case: dict[str, Any], res: G.Result, exclude: frozenset[str]) -> None
             same = (mv.v is S.NaN and rv.v is S.NaN) or bool(mv.v == rv.v) or (Q.is_zero(mv.v) and Q.is_zero(rv.v)
                 if not Q.is_special(mv.v) and not Q.is_special(rv.v) else False)
             if not same:
+                # a float sum that cancels: zero in one order of addition, a few ulps in another (0.5 + 1.1 - 0.1 - ...)
+                try:
+                    mag = max(mv.mag, rv.mag)
+                    tiny = all(Q.is_zero(x.v) or (not Q.is_special(x.v) and abs(sympy.N(x.v, 30)) < sympy.Float("1e-9") * sympy.Float(str(mag)))
+                        for x in (mv, rv))
+                except Exception:  # pylint: disable=broad-except
+                    tiny = False
+                if tiny and (mv.inexact or rv.inexact or sympy.sympify(expr).atoms(sympy.Float)):
+                    res.labels.append("discard:float-cancellation-to-zero")
+                    continue
                 res.violations.append(("value:" + G._shape(expr),  # pylint: disable=protected-access
                     f"returned expression {rexpr} evaluates to {rv.v}, input {expr} to {mv.v} (env {k})"[:500]))
                 return None
